@@ -348,7 +348,8 @@ type lcCall struct {
 	outcome string // ok | err | foreign | hang | panic
 	err     error
 	tx      int   // complete request messages carrying this call's identifier that the client has written
-	frames  int64 // request frames started on the wire, all callers, while the call was running
+	partial int64 // request frames started but not completed while the call was running (a writer that cuts a
+	// message into several Writes and fails in between): attributed to the call when no other call is running
 	fired   int   // faults fired during the call
 	firedAt int   // total number of faults fired when the call returned
 	conn    int   // connection on which the server last saw the request (-1: never)
@@ -358,7 +359,7 @@ type lcCall struct {
 // start issues Activate(id) in a goroutine.
 func (e *lcEnv) start(ctx context.Context, id string) *lcCall {
 	c := &lcCall{id: id, done: make(chan struct{})}
-	w0 := e.net.frames.Load()
+	w0 := e.net.frames.Load() - e.net.whole.Load()
 	f0 := e.firedCount()
 	go func() {
 		defer close(c.done)
@@ -373,7 +374,7 @@ func (e *lcEnv) start(ctx context.Context, id string) *lcCall {
 			}
 			return out{resp.UniqueIdentifier, nil}
 		})
-		c.frames = e.net.frames.Load() - w0
+		c.partial = max(0, e.net.frames.Load()-e.net.whole.Load()-w0)
 		c.tx = e.net.txOf(id)
 		c.firedAt = e.firedCount()
 		c.fired = c.firedAt - f0
@@ -448,9 +449,9 @@ func (e *lcEnv) plainOpt(p *lcPhase, mustSucceed, settleFirst bool) *lcCall {
 	e.wait(c)
 	c.fired = e.firedCount() - f0
 	p.record('p', c)
-	if c.frames > lcMaxTransmissions {
+	if sent := int64(c.tx) + c.partial; sent > lcMaxTransmissions {
 		e.res.violate("C11", "transmissions", "lts.cli:more-than-4-transmissions",
-			fmt.Sprintf("call %q: %d request messages were started on the wire during it (no other call running)", c.id, c.frames))
+			fmt.Sprintf("call %q: %d request messages carrying its identifier were put on the wire and %d more were started", c.id, c.tx, c.partial))
 	}
 	if wasClosed {
 		if c.outcome == "ok" {
@@ -459,8 +460,8 @@ func (e *lcEnv) plainOpt(p *lcPhase, mustSucceed, settleFirst bool) *lcCall {
 		if e.net.dialCount() != dials0 {
 			e.res.violate("C11", "closed-stays-closed", "lts.cli:call-after-close-dials", "a call on a closed client dialed")
 		}
-		if c.frames != 0 {
-			e.res.violate("C11", "closed-stays-closed", "lts.cli:call-after-close-transmits", "a call on a closed client put a request on the wire")
+		if c.tx != 0 {
+			e.res.violate("C11", "closed-stays-closed", "lts.cli:call-after-close-transmits", "the request of a call on a closed client was put on the wire")
 		}
 	} else if mustSucceed && c.fired == 0 && c.outcome == "err" {
 		e.res.violate("C11", "recovers", "lts.cli:call-fails-without-fault",
@@ -729,7 +730,7 @@ func lcRunDry(e *lcEnv) {
 	c := e.plainOpt(e.begin("p"), false, false)
 	drop.Store(false)
 	if c.outcome == "err" {
-		e.res.Counts = append(e.res.Counts, fmt.Sprintf("budget=%d", c.frames))
+		e.res.Counts = append(e.res.Counts, fmt.Sprintf("budget=%d", int64(c.tx)+c.partial))
 	}
 	e.settle()
 	e.plain(e.begin("p"), true)
@@ -789,6 +790,9 @@ func lcRunC10(e *lcEnv) {
 	e.plain(p2, true)
 	e.res.Nontrivial = reached
 	e.res.Counts = append(e.res.Counts, "c10.victim="+strings.Join(outcomes, "+"), "c10.point="+spec.pt, fmt.Sprintf("c10.reached=%v", reached))
+	if !reached {
+		e.res.Counts = append(e.res.Counts, fmt.Sprintf("c10.unreached=%s/%s/%s/faults=%d", spec.pt, spec.srv, spec.next, len(spec.faults)))
+	}
 	e.finish(abandoned)
 }
 
@@ -797,15 +801,16 @@ func lcRunC10(e *lcEnv) {
 func (e *lcEnv) c10Round(round int, deadline bool, abandoned map[string]bool) (bool, string) {
 	spec := e.spec
 	n := spec.n
-	skip := 0
+	// with faults armed (first round): the context ends in the attempt that FOLLOWS the fault, i.e. at the first
+	// occurrence of the point after the fault has fired
+	afterFault := false
 	if round > 0 {
 		n = 1 // the second victim is alone
 	} else {
-		skip = len(spec.faults) // each (retryable) fault costs the victim one attempt
-		if spec.pt == "beforeReconnect" {
-			skip = 0 // the point lies between the attempts
-		}
+		afterFault = len(spec.faults) > 0
 	}
+	f0 := e.firedCount()
+	due := func() bool { return !afterFault || e.firedCount() > f0 }
 	vid := e.id("v")
 	switch spec.srv {
 	case "late":
@@ -883,14 +888,16 @@ func (e *lcEnv) c10Round(round int, deadline bool, abandoned map[string]bool) (b
 		hit()
 	case "inWrite":
 		var mu sync.Mutex
-		seen := 0
+		acted := false
 		e.net.setInWrite(func(id string, c *lcConn) {
 			if id != vid {
 				return
 			}
 			mu.Lock()
-			seen++
-			mine := seen == skip+1
+			mine := !acted && due()
+			if mine {
+				acted = true
+			}
 			mu.Unlock()
 			if !mine {
 				return
@@ -906,8 +913,19 @@ func (e *lcEnv) c10Round(round int, deadline bool, abandoned map[string]bool) (b
 		defer e.net.setInWrite(nil)
 	default:
 		point := lcPoints[spec.pt]
+		var mu sync.Mutex
+		acted := false
 		rx0 := e.dir.hitCount("cli.read.beforeRx")
-		e.dir.on(point, e.dir.hitCount(point)+skip, func() {
+		e.dir.onEvery(point, func(any) {
+			mu.Lock()
+			mine := !acted && due()
+			if mine {
+				acted = true
+			}
+			mu.Unlock()
+			if !mine {
+				return
+			}
 			if spec.pt == "afterSend" && spec.srv == "early" {
 				// the response is to be at the reader before the context ends
 				dl := time.Now().Add(lcWaitEvent / 2)
@@ -1113,7 +1131,7 @@ func lcRunNeg(e *lcEnv) {
 	spec := e.spec
 	e.exactDials = true
 	e.arm(spec.faults...)
-	e.begin("p")
+	e.begin("n") // the dial of DialContext, its connection installed, then the negotiation call
 	err := e.dial(false)
 	ph := e.phases[0]
 	if e.net.connCount() == 0 && err != nil {
@@ -1235,9 +1253,9 @@ func lcRunRty(e *lcEnv) {
 	if n >= budget {
 		want, wantTx = "err", int64(budget)
 	}
-	if c.outcome != want || c.frames != wantTx {
+	if sent := int64(c.tx) + c.partial; c.outcome != want || sent != wantTx {
 		e.res.violate("C11", "retry-budget", "lts.cli:retry-budget",
-			fmt.Sprintf("server dropped %d connection(s) (%s): call returned %s after %d transmission(s), expected %s after %d (observed budget %d)", n, e.spec.srv, c.outcome, c.frames, want, wantTx, budget))
+			fmt.Sprintf("server dropped %d connection(s) (%s): call returned %s after %d transmission(s), expected %s after %d (observed budget %d)", n, e.spec.srv, c.outcome, int64(c.tx)+c.partial, want, wantTx, budget))
 	}
 	mu.Lock()
 	left = 0
@@ -1530,6 +1548,9 @@ func lcSpecs(ctx *Ctx, dry lcDry) []string {
 		// the context ends in the retry loop: the first attempt hits an end of stream, the second one is abandoned
 		for _, pt := range []string{"loaded", "afterSend", "inWrite", "beforeReconnect"} {
 			for _, next := range []string{"-", "dl", "twice"} {
+				if pt == "beforeReconnect" && next == "twice" {
+					continue // the second victim does not reconnect
+				}
 				add(&lcSpec{fam: "c10", n: 2, pt: pt, srv: "early", next: next, seed: seed,
 					faults: []*lcFault{{dir: 'r', conn: 0, k: r0 - 1, kind: "eof", timing: "data"}}})
 			}
